@@ -16,6 +16,16 @@ package mathutils
 //@ spec in_lower(b, e, x) = b != nil ==> (e ? x > *b : x >= *b)
 //@ spec in_upper(b, e, x) = b != nil ==> (e ? x < *b : x <= *b)
 
+// Closed forms of the effective bounds (a half-line has exactly one (value,
+// exclusive) representation, so these are implied by the quantified posts; they
+// are what callers' proofs consume).
+//@ spec ex_num_wins_lo(min, ex) = ex != nil && is_float(*ex) && (min == nil || as_float(*ex) >= *min)
+//@ spec eff_lo(min, ex) = ex_num_wins_lo(min, ex) ? as_float(*ex) : *min
+//@ spec eff_lo_ex(min, ex) = (ex != nil && is_float(*ex)) ? ex_num_wins_lo(min, ex) : ((ex != nil && is_bool(*ex)) ? as_bool(*ex) : false)
+//@ spec ex_num_wins_hi(max, ex) = ex != nil && is_float(*ex) && (max == nil || as_float(*ex) <= *max)
+//@ spec eff_hi(max, ex) = ex_num_wins_hi(max, ex) ? as_float(*ex) : *max
+//@ spec eff_hi_ex(max, ex) = (ex != nil && is_float(*ex)) ? ex_num_wins_hi(max, ex) : ((ex != nil && is_bool(*ex)) ? as_bool(*ex) : false)
+
 //@ func NormalizeBounds
 //@   props C05 C02 C15
 //@   assigns nothing
@@ -25,5 +35,7 @@ package mathutils
 //@   ensures [C05,C15] shape-max: result1 == nil || result1 == maximum || fresh(result1)
 //@   ensures [C05,C15] nil-min: result0 == nil <==> minimum == nil && !(exclusiveMinimum != nil && is_float(*exclusiveMinimum))
 //@   ensures [C05,C15] nil-max: result1 == nil <==> maximum == nil && !(exclusiveMaximum != nil && is_float(*exclusiveMaximum))
+//@   ensures [C05,C15] val-min: result0 != nil ==> *result0 == eff_lo(minimum, exclusiveMinimum) && (result2 <==> eff_lo_ex(minimum, exclusiveMinimum))
+//@   ensures [C05,C15] val-max: result1 != nil ==> *result1 == eff_hi(maximum, exclusiveMaximum) && (result3 <==> eff_hi_ex(maximum, exclusiveMaximum))
 //@   ensures [C05,C15] fresh-min: fresh(result0) ==> exclusiveMinimum != nil && is_float(*exclusiveMinimum)
 //@   ensures [C05,C15] fresh-max: fresh(result1) ==> exclusiveMaximum != nil && is_float(*exclusiveMaximum)
